@@ -19,7 +19,8 @@ import (
 // element is the Tag struct: b6.Tags) and of the types that embed or wrap it in the root package,
 // that has a parameter of slice type. One obligation per such parameter. The receiver is not a
 // parameter: methods are expected to edit the list they are called on.
-// Accepted: reads, re-slicing into a local (which is then only read), ranging, passing to
+// Accepted: reads, re-slicing into a local (which is then only read), ranging, writes after the
+// parameter has been re-assigned a fresh copy of itself (append to nil, make, slices.Clone), passing to
 // functions that take it as a variadic/slice argument but are not known writers.
 // Not followed: writes through an alias (q := p; q[0] = …) are caught only when the alias is a
 // plain local initialised from the parameter or a re-slice of it (one level).
@@ -106,8 +107,41 @@ func runArgWrite(c *Ctx) []Obligation {
 					return true
 				})
 			}
+			// a parameter (or alias) that is re-assigned a fresh copy (append to nil/literal, make, slices.Clone)
+			// is the callee's own from then on: writes positioned after that assignment are not counted
+			freshFrom := map[types.Object]token.Pos{}
+			ast.Inspect(fd.Body, func(n ast.Node) bool {
+				as, ok := n.(*ast.AssignStmt)
+				if !ok || len(as.Lhs) != len(as.Rhs) {
+					return true
+				}
+				for j, l := range as.Lhs {
+					id, ok := l.(*ast.Ident)
+					if !ok {
+						continue
+					}
+					o := info.Uses[id]
+					if o == nil {
+						o = info.Defs[id]
+					}
+					if o == nil || !alias[o] {
+						continue
+					}
+					if fresh, _ := freshSliceExpr(info, as.Rhs[j]); fresh {
+						if old, seen := freshFrom[o]; !seen || as.Pos() < old {
+							freshFrom[o] = as.Pos()
+						}
+					}
+				}
+				return true
+			})
 			var writes []string
 			note := func(pos token.Pos, what string) {
+				for _, from := range freshFrom {
+					if pos > from {
+						return
+					}
+				}
 				writes = append(writes, fmt.Sprintf("%s: %s", c.Position(pos), what))
 			}
 			ast.Inspect(fd.Body, func(n ast.Node) bool {
